@@ -31,6 +31,7 @@ THEOREMS = [
     "MysticVerif.C20.add_spec",
     "MysticVerif.C20.prepend_spec",
     "MysticVerif.C20.logline_roundtrip",
+    "MysticVerif.C20.split3_spec",
     "MysticVerif.C20.log_record_spec",
     "MysticVerif.C20.support_roundtrip",
     "MysticVerif.C20.converge_roundtrip",
@@ -54,6 +55,10 @@ KEY_D2 = "%s/numpy-scalar-repr-unreadable"
 KEY_D3 = "Monitor.__call__/0d-array-cost-with-k/raises"
 KEY_D4 = "%s/first-cost-numpy-others-python/raises"
 KEY_K5 = "munge.read_import/second-directory-in-one-process/module-not-found"
+
+
+KNOWN_KEYS = {KEY_F13, KEY_F13U, KEY_D3, KEY_K5} | {k % w for k in (KEY_D1, KEY_D2, KEY_D4)
+                                                    for w in ("write_raw_file", "write_support_file", "write_converge_file", "read_history(monitor)")}
 
 
 class Unsupported(Exception):
@@ -252,6 +257,7 @@ class Case:
         self.hist = {}
         self.wslots = []                 # (index into expect, oracle record, len_before, id)
         self.dead = False
+        self.broken = False
         self.nfile = 0
         self.dim = rng.choice([1, 2, 2, 3, 3, 4, 5])
         self.vector_costs = rng.random() < 0.3
@@ -264,7 +270,14 @@ class Case:
         self.hist[key] = self.hist.get(key, 0) + n
 
     def find(self, kind, key, what):
-        self.findings.append((kind, key, what))
+        """the first unexpected finding of a case is reported; later ones in the same case are consequences
+        (the oracle and the objects are out of step) and would only multiply class keys"""
+        if key in KNOWN_KEYS:
+            self.findings.append((kind, key, what))
+            return
+        if not self.broken:
+            self.findings.append((kind, key, what))
+        self.broken = True
 
     def emit(self, op, expect, readable):
         self.ops.append(op)
@@ -920,6 +933,10 @@ def quiet():
 
 def forget_module(path):
     sys.modules.pop(os.path.splitext(os.path.basename(path))[0], None)
+    try:
+        os.remove(path)       # keep the directory small (importlib lists it on every change)
+    except OSError:
+        pass
 
 
 def nops_for(rng, tier):
@@ -1005,12 +1022,29 @@ def run_shard(pid, seed, shard, ncases, tier, extra):
             rng = case_rng(PID + "/split", seed, shard, j)
             s = gen_split_string(rng)
             reqs.append(("split", s, "C20 split (s %s)" % codes(s)))
+        if shard == 0 and only is None:
+            # exhaustive: the model's slice arithmetic against CPython's `slice.indices` (all bounds incl. None)
+            nmax = 4 if tier == "quick" else 6
+            for n in range(nmax + 1):
+                bounds = [None] + list(range(-n - 2, n + 3))
+                for st in bounds:
+                    for en in bounds:
+                        for t in (1, 2, 3, -1, -2, -3):
+                            reqs.append(("sliceidx", (n, st, en, t), "C20 sliceidx (n %d) (s %s) (e %s) (t %d)" % (n, idtok(st), idtok(en), t)))
         replies = run_driver_retry([r[2] for r in reqs])
     finally:
         shutil.rmtree(tmpdir, ignore_errors=True)
     nontrivial = 0; evaluations = 0
     for (kind, payload, line), rep in zip(reqs, replies):
         r = parse_reply(rep)
+        if kind == "sliceidx":
+            n, st, en, t = payload
+            want = [str(i) for i in range(*slice(st, en, t).indices(n))]
+            hist["sliceidx:exhaustive"] = hist.get("sliceidx:exhaustive", 0) + 1
+            if r[0] != "ok" or r[1]["i"] != want:
+                findings.append(Finding("correspondence", "sliceIdx/differs-from-slice.indices", "n=%d [%r:%r:%r] python=%r model=%r" % (n, st, en, t, want, rep),
+                                        {"n": n, "slice": [st, en, t], "request": line, "model": rep}))
+            continue
         if kind == "split":
             want = [[str(ord(ch)) for ch in piece] for piece in payload.split("   ")]
             hist["split:strings"] = hist.get("split:strings", 0) + 1
@@ -1150,7 +1184,7 @@ for name in ("first", "second"):
 def main(tier, seed):
     t0 = time.time()
     proof = framework.proof_stage(PID, MODULE, THEOREMS, tier)
-    nshards, per = (16, 250) if tier == "quick" else (64, 4000)
+    nshards, per = (16, 250) if tier == "quick" else (64, 1500)
     run = framework.run_shards("c20", "run_shard", PID, seed, nshards, per, tier)
     run["findings"] = witnesses() + run["findings"]
 
